@@ -18,7 +18,7 @@ pub static PROP: Prop = Prop {
     max_tape: (520, 900),
     cases: (30_000, 600_000),
     both_profiles: false,
-    rule: "a composable pair (f,g) of generated diagrams (non-monogamous, cyclic, isolated nodes, zero-arity operations included) and a functor table: object map label -> list of length 0..3, operation map (label, source type, target type) -> generated diagram of the mapped type (single operation, arbitrary small diagram, or spider-only); map_arrow through the strict trait and through the lax trait (dyn_functor) compared up to isomorphism with substitution on the plain model; functoriality laws; non-trivial = >= 1 hyperedge and (an object image of length != 1 or an operation image that is not a single operation); distinct = hash of (f, g, functor table)",
+    rule: "a composable pair (f,g) of generated diagrams (non-monogamous, cyclic, isolated nodes, zero-arity operations included) and a functor table: object map label -> list of length 0..3, operation map (label, source type, target type) -> generated diagram of the mapped type (single operation, arbitrary small diagram, or spider-only); map_arrow through the strict trait and through the lax trait (dyn_functor and the native path) compared up to isomorphism with substitution on the plain model; functoriality laws; non-trivial = >= 1 hyperedge and (an object image of length != 1 or an operation image that is not a single operation); distinct = hash of (f, g, functor table)",
     assumptions: &["functor images are typed consistently with the object map by construction (the trait documents a possible panic otherwise)"],
     fixed: None,
     scale: None,
@@ -67,6 +67,15 @@ fn check(t: &mut Tape, ctx: &mut Ctx) -> CheckResult {
     let lgot = lgot.strictify().map_err(|e| ctx.fail("map-arrow-wf", format!("lax F(f) has label conflicts: {e}")))?;
     require_iso(ctx, "lax-map-arrow-is-substitution", &lgot, &want, "F(f) (lax trait via dyn_functor) vs substitution")?;
 
+    // the lax trait, through the native path (defined on quotient-free arguments)
+    {
+        let native = open_hypergraphs::lax::functor::try_define_map_arrow(&lf, &to_lax_d(f)).ok_or_else(|| ctx.fail("lax-native-map-arrow-is-substitution", "try_define_map_arrow returned None on a quotient-free diagram"))?;
+        let native = wf(ctx, "map-arrow-wf", from_lax(&native), "native lax F(f)")?.strictify().map_err(|e| ctx.fail("map-arrow-wf", format!("native lax F(f) has label conflicts: {e}")))?;
+        require_iso(ctx, "lax-native-map-arrow-is-substitution", &native, &want, "F(f) (lax trait, native path) vs substitution")?;
+        ctx.sub("map-arrow-type");
+        ensure!(ctx, native.source_type() == table.objects(&f.source_type()) && native.target_type() == table.objects(&f.target_type()), "map-arrow-type", "native lax F(f) has type {:?} -> {:?}, want {:?} -> {:?}", native.source_type(), native.target_type(), table.objects(&f.source_type()), table.objects(&f.target_type()));
+    }
+
     // the lax trait on an argument that still carries pending unifications (they are part of the diagram)
     let pend = gen::pending_pairs(t, f, 3, true);
     if !pend.is_empty() {
@@ -98,6 +107,9 @@ fn check(t: &mut Tape, ctx: &mut Ctx) -> CheckResult {
             let img = lfp.map_arrow(&to_lax_d(f));
             let img = wf(ctx, "map-arrow-wf", from_lax(&img), "lax F(f), images with pending pairs")?.strictify().map_err(|e| ctx.fail("map-arrow-wf", format!("label conflict: {e}")))?;
             require_iso(ctx, "lax-map-arrow-images-with-pending", &img, &substitute(f, &strictified), "F(f) for a lax functor whose images carry pending unifications")?;
+            let native = open_hypergraphs::lax::functor::try_define_map_arrow(&lfp, &to_lax_d(f)).ok_or_else(|| ctx.fail("lax-map-arrow-images-with-pending", "try_define_map_arrow returned None on a quotient-free diagram"))?;
+            let native = wf(ctx, "map-arrow-wf", from_lax(&native), "native lax F(f), images with pending pairs")?.strictify().map_err(|e| ctx.fail("map-arrow-wf", format!("label conflict: {e}")))?;
+            require_iso(ctx, "lax-map-arrow-images-with-pending", &native, &substitute(f, &strictified), "native F(f) for a lax functor whose images carry pending unifications")?;
         }
     }
     // functoriality
